@@ -351,6 +351,7 @@ func (c *Cache[K, V]) SetWithTTL(key K, value V, cost int64, ttl time.Duration) 
 		c.onExit(prev)
 		i.flag = itemUpdate
 	}
+	verifPoint(c.cachePolicy, vpSetAfterStore, keyHash)
 	// Attempt to send item to cachePolicy.
 	select {
 	case c.setBuf <- i:
@@ -376,6 +377,7 @@ func (c *Cache[K, V]) Del(key K) {
 	// Delete immediately.
 	_, prev := c.storedItems.Del(keyHash, conflictHash)
 	c.onExit(prev)
+	verifPoint(c.cachePolicy, vpDelAfterStore, keyHash)
 	// If we've set an item, it would be applied slightly later.
 	// So we must push the same item to `setBuf` with the deletion flag.
 	// This ensures that if a set is followed by a delete, it will be
@@ -453,6 +455,7 @@ func (c *Cache[K, V]) Clear() {
 	c.stop <- struct{}{}
 	<-c.done
 
+	verifPoint(c.cachePolicy, vpClearStopped, 0)
 	// Clear out the setBuf channel.
 loop:
 	for {
@@ -471,9 +474,11 @@ loop:
 			break loop
 		}
 	}
+	verifPoint(c.cachePolicy, vpClearDrained, 0)
 
 	// Clear value hashmap and cachePolicy data.
 	c.cachePolicy.Clear()
+	verifPoint(c.cachePolicy, vpClearPolicyCleared, 0)
 	c.storedItems.Clear(c.onEvict)
 	// Only reset metrics if they're enabled.
 	if c.Metrics != nil {
@@ -539,8 +544,10 @@ func (c *Cache[K, V]) processItems() {
 	for {
 		select {
 		case i := <-c.setBuf:
+			verifPoint(c.cachePolicy, vpApplierItem, i.Key)
 			if i.wait != nil {
 				close(i.wait)
+				verifPoint(c.cachePolicy, vpApplierItemDone, 0)
 				continue
 			}
 			// Calculate item cost value if new or update.
@@ -555,6 +562,7 @@ func (c *Cache[K, V]) processItems() {
 			switch i.flag {
 			case itemNew:
 				victims, added := c.cachePolicy.Add(i.Key, i.Cost)
+				verifPoint(c.cachePolicy, vpApplierAfterAdmit, i.Key)
 				if added {
 					c.storedItems.Set(i)
 					c.Metrics.add(keyAdd, i.Key, 1)
@@ -563,6 +571,7 @@ func (c *Cache[K, V]) processItems() {
 					c.onReject(i)
 				}
 				for _, victim := range victims {
+					verifPoint(c.cachePolicy, vpApplierVictim, victim.Key)
 					victim.Conflict, victim.Value = c.storedItems.Del(victim.Key, 0)
 					onEvict(victim)
 				}
@@ -572,11 +581,14 @@ func (c *Cache[K, V]) processItems() {
 
 			case itemDelete:
 				c.cachePolicy.Del(i.Key) // Deals with metrics updates.
+				verifPoint(c.cachePolicy, vpApplierTomb, i.Key)
 				_, val := c.storedItems.Del(i.Key, i.Conflict)
 				c.onExit(val)
 			}
+			verifPoint(c.cachePolicy, vpApplierItemDone, i.Key)
 		case <-c.cleanupTicker.C:
 			c.storedItems.Cleanup(c.cachePolicy, onEvict)
+			verifPoint(c.cachePolicy, vpSweepDone, 0)
 		case <-c.stop:
 			c.done <- struct{}{}
 			return
